@@ -168,6 +168,16 @@ def cases(negs: dict, dense: bool) -> list[dict]:
                 nested = struct.pack('!HH', 256, len(tlv)) + tlv
                 inner = b'\x02' + bytes(8) + nested
                 add(2, 'bgp-ls', mp_reach(16388, 71, nh4, struct.pack('!HH', nt, len(inner)) + inner), 'bgpls-descriptor')
+    # BGP-LS prefix NLRI (types 3 and 4): a well-formed local node descriptor in front of the prefix descriptors, whose IP
+    # reachability TLV (265) holds a prefix length and 0 .. more octets than an address has
+    node = struct.pack('!HH', 256, 8) + struct.pack('!HH', 512, 4) + bytes([0, 0, 253, 232])
+    for nt in (3, 4):
+        for dt in (263, 264, 265):
+            for n in (0, 1, 2, 3, 5, 6, 9, 16, 17, 18, 19, 33, 40):
+                for first in (0, 24, 128, 255):
+                    value = (bytes([first]) + bytes((i + 1) & 255 for i in range(n - 1))) if n else b''
+                    inner = b'\x02' + bytes(8) + node + struct.pack('!HH', dt, n) + value
+                    add(2, 'bgp-ls', mp_reach(16388, 71, nh4, struct.pack('!HH', nt, len(inner)) + inner), 'bgpls-prefix-descriptor')
     for n in range(0, 26):  # VPLS: length (2)
         add(2, 'l2vpn', mp_reach(25, 65, nh4, struct.pack('!H', n) + bytes((i + 1) & 255 for i in range(n))), 'vpls')
     for bits in list(range(0, 200, 8 if not dense else 4)) + [255]:  # SR policy: a bit length, then distinguisher, colour, endpoint
